@@ -38,7 +38,7 @@ func verifRoot() string {
 
 func loadKnown() knownFile {
 	var k knownFile
-	data, err := os.ReadFile(filepath.Join(verifRoot(), "known_findings.json"))
+	data, err := os.ReadFile(filepath.Join(toolRoot(), "known_findings.json"))
 	if err == nil {
 		json.Unmarshal(data, &k)
 	}
